@@ -408,15 +408,38 @@ func (s *PolicySets) protoRuleToHnsRules(policyId string, pRule *proto.Rule, isI
 			pm.addrs = append(pm.addrs, addr)
 		}
 
-		for i, m := range orderedPolicyMembers {
-			newPolicy := *aclPolicy
-			newPolicy.RemoteAddresses = strings.Join(m.addrs, ",")
-			newPolicy.RemotePorts = m.port
-			newPolicy.Protocol = m.proto
-			if s.supportedFeatures.Acl.AclRuleId {
-				newPolicy.Id = fmt.Sprintf("%s-%s-%d", policyId, ruleCopy.RuleId, i)
+		// The rule's own protocol and source ports still apply on top of the service's
+		// <IP, protocol, port> members (the API allows both next to destination services).
+		ruleProtocol := uint16(256) // any
+		if ruleCopy.Protocol != nil {
+			switch p := ruleCopy.Protocol.NumberOrName.(type) {
+			case *proto.Protocol_Name:
+				ruleProtocol = protocolNameToNumber(p.Name)
+			case *proto.Protocol_Number:
+				ruleProtocol = uint16(p.Number)
 			}
-			aclPolicies = append(aclPolicies, &newPolicy)
+		}
+		srcPortChunks := SplitPortList(ruleCopy.SrcPorts, ipPortsPerRule)
+
+		i := 0
+		for _, m := range orderedPolicyMembers {
+			if ruleProtocol != 256 && m.proto != ruleProtocol {
+				// This member can never match a packet of the rule's protocol.
+				continue
+			}
+			for _, srcPorts := range srcPortChunks {
+				newPolicy := *aclPolicy
+				newPolicy.RemoteAddresses = strings.Join(m.addrs, ",")
+				newPolicy.RemotePorts = m.port
+				newPolicy.Protocol = m.proto
+				// Destination services are only valid on egress rules, where the source is local.
+				newPolicy.LocalPorts = appendPortsinList(srcPorts)
+				if s.supportedFeatures.Acl.AclRuleId {
+					newPolicy.Id = fmt.Sprintf("%s-%s-%d", policyId, ruleCopy.RuleId, i)
+				}
+				i++
+				aclPolicies = append(aclPolicies, &newPolicy)
+			}
 		}
 
 		// DstIpPortSetIds are mutually exclusive with other fields - if specified, then no other rule match criteria can be.
